@@ -1239,6 +1239,14 @@ func (c *Client) pollForUpdates() {
 		// update the data and notify of the change
 		c.mu.Lock()
 		idx := c.cacheData.Index
+		if data.Index < idx {
+			// The meta server asked lags behind what this client has already seen (a
+			// follower that is still replaying its log answers as soon as its own data
+			// changes, whatever index the client asked for). Keep what we have: a change
+			// that was acknowledged to a caller must not vanish from the cache again.
+			c.mu.Unlock()
+			continue
+		}
 		c.cacheData = data
 		c.updateAuthCache()
 		c.updateNodeID()
